@@ -5,6 +5,7 @@ the one coq/Lib/Kernel.v states: counting semaphores with no hand-off, message p
 ready iff the process is dead, a killed process keeps every semaphore it holds.
 """
 import collections
+import struct
 import itertools
 import threading
 
@@ -417,6 +418,9 @@ class SimPipeCore:
         self.tags = collections.deque()      # what each message is (set by the harness' dumps wrapper)
 
 
+SEND_LIMIT = 1 << 20
+
+
 class SimConnection:
     """one process's handle on one end of a pipe"""
     kernel = None
@@ -450,6 +454,10 @@ class SimConnection:
         SimConnection.kernel.park(f"pipe.send {self.core.id}", obj=self)
         self._check()
         b = bytes(buf)
+        if len(b) > SEND_LIMIT:
+            # what Connection.send_bytes does where messages have a size limit (2 GiB before Python 3.8): the message is refused
+            # AFTER it has been pickled -- the "too large to send" clause of C04, scaled down
+            raise struct.error("'i' format requires -2147483648 <= number <= 2147483647")
         self.core.msgs.append(b[offset:] if size is None else b[offset:offset + size])
         a = SimConnection.kernel.cur_actor()
         self.core.tags.append(getattr(a, "send_tag", None) if a is not None else None)
